@@ -1,9 +1,11 @@
 #!/bin/sh
 # Builds the harness once against /repo (warms the Go build cache) and lists the checks.
 export GOFLAGS=-mod=mod GOPROXY=off GOSUMDB=off GOTOOLCHAIN=local
-cd /verif/harness || exit 2
+VERIF_DIR=$(cd "$(dirname "$0")" && pwd)
+export VERIF_DIR
+cd "$VERIF_DIR/harness" || exit 2
 cp /repo/go.sum go.sum || exit 2
-mkdir -p /verif/evidence /verif/replays
+mkdir -p "$VERIF_DIR/evidence" "$VERIF_DIR/replays"
 BIN=$(mktemp -d /tmp/vcheck-setup.XXXXXX) || exit 2
 trap 'rm -rf "$BIN"' EXIT INT TERM
 go build -tags verif -o "$BIN/vcheck" ./cmd/vcheck || exit 2
